@@ -73,8 +73,28 @@
    per key; the harness prints them so); integers beyond 2^53 (float64 in the copy) are outside the
    model.  The correspondence evaluates every case THROUGH the copy (C09_Corr: ctx_run / flow_run /
    hcase_run) with the answer of /usr/bin/jq for the object as created in the cluster - objects shaped
-   as an API server returns them in a large share of the cases. *)
+   as an API server returns them in a large share of the cases.
+
+   Sixth part (C09_win_...): the WINDOW between a binding's start and its unlock.  Model
+   C09_WinModel: handleWatchEvent's last part (eventCbEnabled ? putEvent : append to eventBuf),
+   getCachedObjects dropping the saved events while the binding is locked (the run of the Synchronization
+   hook), enableKubeEventCb handing the saved events over in order; histories = any sequence of
+   deliveries, Synchronization runs and the unlock.  Spec C09_WinSpec.P_win: one Event file per delivery
+   that passes the change filter since the last Synchronization run, in delivery order, each the
+   documented Event context of ITS delivery (object and jq result of that very object), snapshots as they
+   are when the file is written, and jq asked again about the object shown.  Full statement
+
+     Definition C09_win_full_statement := win_full_statement
+       (forall w, win_wf w = true -> P_win w (Some (run_win w)) = true)
+
+   is false on F8 (C09_win_refuted: a scalar jq result is stored as {}, a change of it never passes);
+   C09_win_contract_partial proves it outside T_win for every binding configuration, every set of
+   existing objects and EVERY sequence of deliveries / Synchronization runs / unlock - by induction over
+   the sequence with a simulation between the informer's cache + buffer and the specification's view of
+   the cluster.  C09_win_event_from_one_delivery: every Event file of every window renders the KubeEvent
+   built from ONE delivery of the history and from nothing else. *)
 From Verif Require Import Common Json C09_Model C09_Spec C09_Proofs C09_CopyProofs C09_ShareModel C09_ShareProofs.
+From Verif Require Import C09_WinModel C09_WinSpec C09_WinProofs.
 
 Definition C09_full_statement : Prop :=
   forall v cs out, render_list v cs = Some out -> P v cs (Some out) = true.
@@ -455,3 +475,67 @@ Example C09_share_hyp_met :
   /\ length (ho_items (run_hook (share_hcase WitShare.sh))) = 4%nat
   /\ P_hook (share_hcase WitShare.sh) (Some WitShare.gutted_obs) = false.
 Proof. exact WitShare.sh_ok. Qed.
+
+(* ---------------- the window between a binding's start and its unlock ---------------- *)
+
+Definition C09_win_full_statement : Prop := win_full_statement.
+
+(* for ALL sequences of deliveries, Synchronization runs and unlocks: an Event file - handed out by the
+   unlock from the buffer of saved events, or at once - is the rendering (at some later moment: cache c,
+   step n) of the KubeEvent built from ONE delivery (t, o) of the history; nothing that happened to the
+   object afterwards is in it *)
+Theorem C09_win_event_from_one_delivery : forall w x,
+  In x (run_win w) -> wf_sync x = false ->
+  exists t o c n, In (WDeliver t o) (wn_ops w)
+                  /\ x = event_file (wn_version w) (wn_bind w) c n (t, o, event_of (wn_bind w) t o).
+Proof. exact win_event_from_one_delivery. Qed.
+Print Assumptions C09_win_event_from_one_delivery.
+
+(* ... and that KubeEvent pairs the delivered object with the jq result of that same object *)
+Theorem C09_win_saved_event_pairs_object_with_its_result : forall b t o,
+  ke_type (event_of b t o) = KEvent /\ ke_wevs (event_of b t o) = [t]
+  /\ ke_objs (event_of b t o) = [(w_id o, ofr_of_item (spec_item b o))].
+Proof. exact event_of_pairs. Qed.
+Print Assumptions C09_win_saved_event_pairs_object_with_its_result.
+
+(* handleWatchEvent fires (or saves) exactly for the deliveries that pass the change filter *)
+Theorem C09_win_fires_iff_passes : forall b a t w,
+  Forall (fun p => wgood b (snd p)) a -> wgood b w ->
+  handle b (img b a) t w
+  = (img b (alive_step a (t, w)), if passes b a t w then Some (event_of b t w) else None).
+Proof. exact handle_passes. Qed.
+Print Assumptions C09_win_fires_iff_passes.
+
+(* the window contract: the right number of files in the right order, each the documented context of
+   its own delivery with filterResult = jq of the object shown - every configuration, every history *)
+Theorem C09_win_contract_partial : forall w,
+  win_wf w = true -> T_win w = false -> P_win w (Some (run_win w)) = true.
+Proof. exact win_contract_partial. Qed.
+Print Assumptions C09_win_contract_partial.
+
+Theorem C09_win_contract_via_copy : forall w,
+  win_canon w = true -> win_wf w = true -> T_win w = false -> P_win w (Some (run_win (win_via w))) = true.
+Proof. exact win_contract_via_copy. Qed.
+Print Assumptions C09_win_contract_via_copy.
+
+Theorem C09_win_refuted :
+  exists w, win_wf w = true /\ T_win w = true /\ P_win w (Some (run_win w)) = false.
+Proof. exists WitWin.witness_win_F8. exact WitWin.win_refuted. Qed.
+Print Assumptions C09_win_refuted.
+
+(* non-vacuity: cm-1 exists, the Synchronization hook runs, cm-1 is modified three times in a row inside
+   the window (the second time outside the part jqFilter .data selects), then the unlock: the hypotheses
+   hold; the model writes the Synchronization file and, after the unlock, TWO Modified files - for the
+   first and the third modification, each with its own object and its own filterResult; the collapsed
+   observation (one file: newest object, filterResult of the first modification) violates P_win and the
+   jq-asked-again clause *)
+Example C09_win_hyp_met :
+  win_wf WitWin.example_win = true /\ T_win WitWin.example_win = false
+  /\ map (fun x => fo_out (wf_file x)) (skipn 1 (run_win WitWin.example_win))
+     = [Some (JArr [WitWin.item_of 2 0]); Some (JArr [WitWin.item_of 3 1])]
+  /\ P_win WitWin.example_win (Some WitWin.collapsed_obs) = false
+  /\ forallb rejq_ok WitWin.collapsed_obs = false.
+Proof.
+  destruct WitWin.example_win_ok as [H1 [H2 [_ H3]]]. destruct WitWin.collapsed_rejected as [_ [H4 H5]].
+  repeat split; assumption.
+Qed.
